@@ -2,13 +2,18 @@
 //
 // Case lines:
 //
-//	cell <kind> <preload 0|1> <limit> <passes> <n> <consumers> <cancel> [<eof layout 0..3>]
+//	cell <kind> <preload 0|1> <limit> <passes> <n> <consumers> <cancel> [<eof layout 0..3> [<fs 0|1>]]
 //
 // kind: uri uripost raw jsonl jsona scenhttp scengrpc grpcjson decode; <cancel> is "-" or the
 // number of items after which the context is cancelled (always set when limit=passes=0). <eof>: how
 // the ammo file ends (a08.EOFLayouts: final newline / none / trailing blanks+CR / blank lines); the
 // entries are the same in every layout, so the model does not look at it.
-// Observation: <count> <seq> <closed|blocked> <run class>   (see internal/a08).
+// <fs>: the file system the ammo file lives on (a08.FsMem: afero mem files, a08.FsOS: a real file
+// under a scratch directory through afero.NewOsFs, what the pandora binary uses: there every
+// operation on a closed *os.File, Close included, is an error).
+// Observation: <count> <seq> <closed|blocked> <run class> <handles>   (see internal/a08);
+// <handles> = h<opens>/<closes>/<operations on an already closed handle> of the ammo file, counted by
+// a pass-through wrapper of the file system once Run has returned ("-": no provider was built / hang).
 //
 // `run` drives the cells through worker subprocesses (one cell at a time each); a worker that
 // reported a hang is killed, so a provider goroutine that spins cannot disturb later cells.
@@ -27,19 +32,22 @@ import (
 func runCell(c string) (out string) {
 	defer func() {
 		if r := recover(); r != nil {
-			out = "0 - blocked panic"
+			out = "0 - blocked panic -"
 		}
 	}()
 	f := strings.Split(c, " ")
-	if len(f) == 7 && f[0] == "engine" {
+	if (len(f) == 7 || len(f) == 8) && f[0] == "engine" {
 		return runEngineCell(f)
 	}
-	if (len(f) != 8 && len(f) != 9) || f[0] != "cell" {
+	if len(f) < 8 || len(f) > 10 || f[0] != "cell" {
 		return "unknown-case"
 	}
-	eof := 0
-	if len(f) == 9 {
+	eof, fsKind := 0, a08.FsMem
+	if len(f) >= 9 {
 		eof, _ = strconv.Atoi(f[8])
+	}
+	if len(f) == 10 {
+		fsKind, _ = strconv.Atoi(f[9])
 	}
 	kind := f[1]
 	preload := f[2] == "1"
@@ -51,14 +59,20 @@ func runCell(c string) (out string) {
 	if f[7] != "-" {
 		cancel, _ = strconv.Atoi(f[7])
 	}
-	b, err := a08.BuildEOF(kind, preload, limit, passes, a08.DefaultEntries(n), nil, eof)
+	b, err := a08.BuildFS(kind, preload, limit, passes, a08.DefaultEntries(n), nil, eof, fsKind)
 	if err != nil {
-		return "0 - closed construct" // the constructor refused the file: there is no Run and no sink
+		return "0 - closed construct -" // the constructor refused the file: there is no Run and no sink
 	}
-	return a08.Observe(b, consumers, cancel, limit+passes*n+1000).String()
+	defer b.Cleanup()
+	o := a08.Observe(b, consumers, cancel, limit+passes*n+1000)
+	h := "-"
+	if o.Run != "hang" && o.Run != "panic" {
+		h = b.Audit.Summary() // Run has returned: its deferred calls are done
+	}
+	return o.String() + " " + h
 }
 
-// engine <kind> <preload> <limit> <passes> <n> <instances>: the provider under the real engine.
+// engine <kind> <preload> <limit> <passes> <n> <instances> [<fs>]: the provider under the real engine.
 // Observation: <shots> <sorted seq> <Engine.Run result> <Engine.Wait returned 0|1>
 func runEngineCell(f []string) string {
 	kind := f[1]
@@ -67,10 +81,15 @@ func runEngineCell(f []string) string {
 	passes, _ := strconv.Atoi(f[4])
 	n, _ := strconv.Atoi(f[5])
 	inst, _ := strconv.Atoi(f[6])
-	b, err := a08.Build(kind, preload, limit, passes, a08.DefaultEntries(n), nil)
+	fsKind := a08.FsMem
+	if len(f) == 8 {
+		fsKind, _ = strconv.Atoi(f[7])
+	}
+	b, err := a08.BuildFS(kind, preload, limit, passes, a08.DefaultEntries(n), nil, 0, fsKind)
 	if err != nil {
 		return "0 - construct:" + strings.ReplaceAll(err.Error(), " ", "_") + " 0"
 	}
+	defer b.Cleanup()
 	shots, res, waited := a08.ObserveEngine(b, inst, limit+passes*n+50)
 	s := "-"
 	if len(shots) > 0 {
@@ -105,7 +124,8 @@ func gen(r *vh.Rand, tier string) []string {
 	if tier == "thorough" {
 		ns = []int{1, 2, 3, 5}
 	}
-	// the enumerated matrix; the end-of-file layout rotates over the cells
+	// the enumerated matrix, on both kinds of file system; the end-of-file layout rotates over the
+	// cells (shifted by one every 4 cells so that it is not a function of (n, consumers))
 	cellNo := 0
 	for _, pc := range provCfgs() {
 		for _, limit := range []int{0, 1, 2, 3, 5} {
@@ -116,7 +136,10 @@ func gen(r *vh.Rand, tier string) []string {
 						if limit == 0 && passes == 0 {
 							cancel = strconv.Itoa(2*n + 1)
 						}
-						out = append(out, fmt.Sprintf("cell %s %d %d %d %d %d %s %d", pc.kind, pc.preload, limit, passes, n, cons, cancel, cellNo%a08.EOFLayouts))
+						eof := (cellNo + cellNo/4) % a08.EOFLayouts
+						for fs := 0; fs < a08.FsKinds; fs++ {
+							out = append(out, fmt.Sprintf("cell %s %d %d %d %d %d %s %d %d", pc.kind, pc.preload, limit, passes, n, cons, cancel, eof, fs))
+						}
 						cellNo++
 					}
 				}
@@ -131,7 +154,7 @@ func gen(r *vh.Rand, tier string) []string {
 		for eof := 0; eof < a08.EOFLayouts; eof++ {
 			for _, lp := range [][2]int{{0, 2}, {5, 0}, {4, 3}} {
 				for _, n := range []int{1, 3} {
-					out = append(out, fmt.Sprintf("cell %s %d %d %d %d 1 - %d", pc.kind, pc.preload, lp[0], lp[1], n, eof))
+					out = append(out, fmt.Sprintf("cell %s %d %d %d %d 1 - %d %d", pc.kind, pc.preload, lp[0], lp[1], n, eof, len(out)%a08.FsKinds))
 				}
 			}
 		}
@@ -145,7 +168,9 @@ func gen(r *vh.Rand, tier string) []string {
 				if lp[0] == 0 && lp[1] == 0 {
 					cancel = "1"
 				}
-				out = append(out, fmt.Sprintf("cell %s %d %d %d 0 1 %s %d", pc.kind, pc.preload, lp[0], lp[1], cancel, eof))
+				for fs := 0; fs < a08.FsKinds; fs++ {
+					out = append(out, fmt.Sprintf("cell %s %d %d %d 0 1 %s %d %d", pc.kind, pc.preload, lp[0], lp[1], cancel, eof, fs))
+				}
 			}
 		}
 	}
@@ -153,7 +178,9 @@ func gen(r *vh.Rand, tier string) []string {
 	for _, pc := range provCfgs() {
 		for _, lp := range [][2]int{{3, 0}, {0, 2}, {4, 3}, {7, 2}} {
 			for _, n := range ns {
-				out = append(out, fmt.Sprintf("engine %s %d %d %d %d %d", pc.kind, pc.preload, lp[0], lp[1], n, 1+(n+lp[0])%3))
+				for fs := 0; fs < a08.FsKinds; fs++ {
+					out = append(out, fmt.Sprintf("engine %s %d %d %d %d %d %d", pc.kind, pc.preload, lp[0], lp[1], n, 1+(n+lp[0])%3, fs))
+				}
 			}
 		}
 	}
@@ -172,7 +199,7 @@ func gen(r *vh.Rand, tier string) []string {
 		if (limit == 0 && passes == 0) || r.Chance(1, 3) {
 			cancel = strconv.Itoa(r.Range(0, 3*n+2))
 		}
-		out = append(out, fmt.Sprintf("cell %s %d %d %d %d %d %s %d", pc.kind, pc.preload, limit, passes, n, r.Range(1, 4), cancel, r.Intn(a08.EOFLayouts)))
+		out = append(out, fmt.Sprintf("cell %s %d %d %d %d %d %s %d %d", pc.kind, pc.preload, limit, passes, n, r.Range(1, 4), cancel, r.Intn(a08.EOFLayouts), r.Intn(a08.FsKinds)))
 	}
 	return out
 }
